@@ -579,6 +579,9 @@ def ema_grouped(
     )
     if mask is not None:
         mask = np.asarray(mask)
+        if mask.dtype.kind != "b":
+            # the kernels read mask[row] as a truth value: positions would be misread
+            raise TypeError("mask must be a boolean array")
     nb_kwargs["mask"] = mask
 
     # Handle time-weighted case
